@@ -112,9 +112,16 @@ def run(R, pid):
                 return True
             t = os.path.getmtime(vo)
             return any(os.path.getmtime(os.path.join(d, f)) > t for f in os.listdir(d) if f.endswith((".v", ".vo")) and f[:-2 if f.endswith(".v") else -3] not in ("Props_C03", "Props_C12", "Extract", "SigProofs") and not (f.endswith(".vo") and f[:-3] == v[:-2]))
+        def loads(v):
+            # mtimes are not reliable across copies of the tree: ask Coq whether the compiled file still fits its dependencies
+            os.makedirs(R.work, exist_ok=True)
+            probe = os.path.join(R.work, "LoadProbe.v")
+            open(probe, "w").write("Require Packet.%s.\n" % v[:-2])
+            rc, _ = vlib.sh(["coqc"] + vlib._coq_flags("Packet") + [probe], cwd=d, timeout=300)
+            return rc == 0
         with vlib.flock("coq-Packet"):
             for v in ("GenSigners.v", "SigProofs.v"):
-                if ok and stale(v):
+                if ok and (stale(v) or not loads(v)):
                     rc, out = vlib.sh(["coqc"] + vlib._coq_flags("Packet") + [os.path.join(d, v)], cwd=d, timeout=900)
                     if rc != 0:
                         ok = False
